@@ -47,12 +47,13 @@ func mkCol(typ string, vals []int) (interface{}, []cell) {
 		}
 		return d, cells
 	case "float":
-		// 0 = NaN (null), 1 = +0.0, 2 = -0.0 (equal to +0.0), 3 = 1.5
+		// 0 = NaN (null; a different sign/payload per row), 1 = +0.0, 2 = -0.0 (equal to +0.0), 3 = 1.5
 		d := make([]float64, len(vals))
 		for i, v := range vals {
 			switch v {
 			case 0:
-				d[i] = math.NaN()
+				// every NaN is the null, whatever its sign and payload bits: a different bit pattern per row
+				d[i] = math.Float64frombits(0x7ff8000000000001 + uint64(i)*0x10001 + uint64(i%2)<<63)
 				cells[i] = cell{true, ""}
 			case 1:
 				d[i] = 0
@@ -336,7 +337,7 @@ func TestQVGroupByAPI(t *testing.T) {
 	}
 	fmt.Printf("QV-SAMPLE type=float keys=[+0.0 -0.0 NaN 1.5] nullEq=true deriv=sorted\n")
 	fmt.Printf("QV-BOUNDED evaluations=%d distinct=%d exhaustive=true bound=%q rule=%q\n", evals, nontrivial,
-		fmt.Sprintf("every %d-row key column over 4 values incl. null per type {int,bool,float(+0,-0,NaN),string,enum}, optional second int key, Null on/off, 3 derivations", n),
+		fmt.Sprintf("every %d-row key column over 4 values incl. null per type {int,bool,float(+0,-0,NaNs of different sign and payload),string,enum}, optional second int key, Null on/off, 3 derivations", n),
 		"distinct = cases with more than one and fewer than n groups")
 	if len(failed) > 0 {
 		t.Fail()
